@@ -156,6 +156,41 @@ def run(ctx):
             ctx.probe("continued_on_a_deep_copy")
             check_tracked("fork")
             check_hugrs("fork")
+        if ch.coin(1, 25, "unwirable-explicit-wire"):
+            # fault, then workload: a command that mixes a tracked index with an explicit wire the builder cannot connect (its
+            # source lies inside a nested graph).  Both builders refuse it the same way; the caller catches the error and
+            # goes on: every index still denotes the wire it denoted before, exactly as the plain builder's caller still
+            # holds its old wires.
+            qi = [i for i, e in enumerate(model) if e is not None and e[1] == "Q"]
+            if qi:
+                from hugr import val as _val
+                from hugr.ops import Command as _Cmd
+                i = ch.pick(qi, "fault-idx")
+                inner_wires = []
+                for b in (t, p):
+                    inner = b.add_nested()
+                    c = inner.load(_val.TRUE)
+                    inner.set_outputs()
+                    inner_wires.append(c[0])
+                mk = next(o[1] for o in opset() if o[0] == "Swap")
+                outcomes = []
+                for which in ("tracked", "plain"):
+                    try:
+                        if which == "tracked":
+                            t.add(_Cmd(mk(), [i, inner_wires[0]]))
+                        else:
+                            p.add_op(mk(), wires[model[i][0]][0], inner_wires[1])
+                        outcomes.append("returned")
+                    except Exception as e:  # noqa: BLE001
+                        outcomes.append(type(e).__name__)
+                ctx.ev(0, "add(Swap(index, wire from inside a nested graph))", i, outcomes)
+                ctx.fault("unwirable_explicit_wire_then_continue")
+                ctx.checked("refused-alike")
+                if outcomes[0] != outcomes[1]:
+                    ctx.violate("hugr", "refusal-differs-from-plain-builder", {"tracked": outcomes[0], "plain": outcomes[1]}, stop=True)
+                check_tracked("refused-add(unwirable wire)")
+                check_hugrs("refused-add(unwirable wire)")
+                continue
         if k == 7:
             # a client annotates one node after the fact, the same way in both HUGRs: it shows on that node only
             from hugr.hugr.node_port import Node as _N
